@@ -300,6 +300,11 @@ func (o *Opts) Matrix() *Node {
 			dims = append(dims, d)
 			setup.Set(d, vals("matrix.value", 0))
 		}
+		if t.Draw(6, "matrix:mixed-anon") == 5 {
+			// an anonymous dimension beside named ones (expressible as the key "")
+			dims = append(dims, "")
+			setup.Set("", vals("matrix.value", 1))
+		}
 		m.Set("setup", setup)
 	}
 	na := t.Draw(4, "matrix:nadj")
@@ -387,6 +392,10 @@ func (o *Opts) Cache() *Node {
 	if t.Draw(2, "cache:size?") == 1 {
 		m.Set("size", Str(o.str("cache.size")))
 	}
+	if t.Draw(5, "cache:disabled?") == 4 {
+		// the mapping form may carry the flag too (the struct field has no yaml key name of its own)
+		m.Set("disabled", Bool(t.Draw(2, "cache:disabledv") == 1))
+	}
 	if t.Draw(4, "cache:extra?") == 3 {
 		m.Set("x_"+o.str("cache.xkey"), o.AnyValue("cache.x", 2))
 	}
@@ -453,6 +462,14 @@ func (o *Opts) CommandStep() *Node {
 				k = "name"
 			}
 			m.Set(k, Str(o.str("label")))
+		})
+	}
+	if o.Aliases && t.Draw(12, "cmd:null-main-with-alias") == 11 {
+		parts = append(parts, func() {
+			if !m.Has("label") && !m.Has("name") {
+				m.Set("label", Null())
+				m.Set("name", Str(o.str("label")))
+			}
 		})
 	}
 	if t.Draw(3, "cmd:key?") == 2 {
@@ -573,6 +590,13 @@ func (o *Opts) Step(depth int) *Node {
 		}
 		if t.Draw(4, "group:key?") == 3 {
 			g.Set("key", Str(o.str("key")))
+		}
+		if o.Aliases && g.Get("group").Kind == KNull && t.Draw(4, "group:alias-label") == 3 {
+			g.Set([]string{"label", "name"}[t.Draw(2, "group:aliaskey")], Str(o.str("group.name")))
+		}
+		if o.Aliases && !g.Has("key") && t.Draw(10, "group:null-key-with-id") == 9 {
+			g.Set("key", Null())
+			g.Set("id", Str(o.str("key")))
 		}
 		n := t.Draw(4, "group:nsteps")
 		st := &Node{Kind: KSeq, Seq: []*Node{}}
